@@ -230,12 +230,17 @@ class ToRat:
     sub-expressions to symbols (return a Rat or None to refuse); `env` maps local names."""
 
     def __init__(self, atom: Callable[[ast.AST], Optional[Rat]], env: Optional[Dict[str, Rat]] = None,
-                 funcs: Optional[Dict[str, Callable]] = None):
+                 funcs: Optional[Dict[str, Callable]] = None, pre: Optional[Callable[[ast.AST], Optional[Rat]]] = None):
         self.atom = atom
+        self.pre = pre  # consulted before the structural rules (lets a caller keep a sub-expression as one atom)
         self.env = env if env is not None else {}
         self.funcs = funcs if funcs is not None else {}
 
     def __call__(self, e: ast.AST) -> Rat:
+        if self.pre is not None:
+            r0 = self.pre(e)
+            if r0 is not None:
+                return r0
         if isinstance(e, ast.Constant) and isinstance(e.value, (int, float)) and not isinstance(e.value, bool):
             return Rat.const(Fraction(str(e.value)))
         if isinstance(e, ast.Name) and e.id in self.env:
